@@ -381,6 +381,25 @@ def kernel_add_rules(ctx):
             inloop = [bi for bi, st in inpl if any(bi in bl for bl in b.loops().values())]
             ok = ok and bool(inloop) and (ty != 'v1::Linear' or any(fields_of_place(st['dst'])[-1:] == [('v1::Linear', 'constant')] for bi, st in inpl))
         ctx.check(ok, R + '/%s*f64/scales' % ty.split('::')[-1], 'T-BRANCHFX', b.name, 'coefficients are not multiplied by the scalar', b.site())
+        # the only shortcut is for an exactly zero scalar (a tiny non-zero scalar must still scale the function)
+        zs = [c for c in b.calls if c.item == 'zero' and c.bb in b.live]
+        okz = True; why = ''
+        for z in zs:
+            guards = []
+            for c in b.calls:
+                if c.item == 'is_zero' and T.strip_wrappers(T.expr(b, c.args[0])) == ('place', 2, []):
+                    for g in T.guards_from_call(b, c):
+                        if z.bb in b.reach([g.true_bb]) and z.bb not in b.reach([g.false_bb]): guards.append('is_zero')
+            for bi, st in float_cmp_sites(b, ('Eq', 'Ne', 'Lt', 'Le', 'Gt', 'Ge')):
+                for g in T.guards_from_local(b, st['dst']['l'], bi):
+                    side = [t for t in (g.true_bb, g.false_bb) if t is not None and z.bb in b.reach([t]) and z.bb not in b.reach([x for x in (g.true_bb, g.false_bb) if x is not None and x != t])]
+                    if side:
+                        cs = [o['v'] for o in st['rv']['ops'] if o['k'] == 'const']
+                        exact = st['rv']['op'] in ('Eq', 'Ne') and cs == ['0f64']
+                        guards.append('exact-zero' if exact else 'cmp %s %s' % (st['rv']['op'], cs))
+            if not guards or any(g not in ('is_zero', 'exact-zero') for g in guards):
+                okz = False; why = str(guards)
+        ctx.check(okz, R + '/%s*f64/only-exact-zero-shortcut' % ty.split('::')[-1], 'T-GUARD', b.name, 'the function is replaced by zero under %s, not only for a scalar that is exactly 0' % why, b.site())
     ctx.floor(R, 5)
 
 
